@@ -94,6 +94,12 @@ func equal(x, y slip.Object) bool {
 		if ty, ok := y.(slip.Tail); ok {
 			return equal(tx.Value, ty.Value)
 		}
+	case slip.Funky:
+		// Code read from text, 'a or (car x), is data with the structure of
+		// the list it was read from: the same function and equal arguments.
+		if _, ok := y.(slip.Funky); ok {
+			return tx.Equal(y)
+		}
 	}
 	return false
 }
